@@ -1,6 +1,7 @@
 package main
 
 import (
+	"math"
 	"crypto/aes"
 	"encoding/json"
 	"fmt"
@@ -150,8 +151,11 @@ func byteTargets(f fkey) []byteTarget {
 		{"cwt.Validator_ValidateMap", func(b []byte) {
 			var m cwt.ClaimsMap
 			if key.UnmarshalCBOR(b, &m) == nil {
-				if v, err := cwt.NewValidator(&cwt.ValidatorOpts{ExpectedIssuer: "iss"}); err == nil {
-					v.ValidateMap(m)
+				for _, o := range []cwt.ValidatorOpts{{ExpectedIssuer: "iss"}, {}, {AllowMissingExpiration: true}, {AllowMissingExpiration: true, ClockSkew: time.Second}} {
+					o := o
+					if v, err := cwt.NewValidator(&o); err == nil {
+						v.ValidateMap(m)
+					}
 				}
 			}
 		}},
@@ -375,6 +379,7 @@ var keyTargetNames = []string{"key.Key_Signer", "key.Key_Verifier", "key.Key_MAC
 
 func oddValues(c *ctx) []any {
 	return []any{nil, "", "text", -1, 0, 1 << 40, uint64(1) << 63, []byte{}, []byte{0}, c.r.bytes(1), c.r.bytes(16), c.r.bytes(32), c.r.bytes(33), c.r.bytes(66), c.r.bytes(67), c.r.bytes(200), true, false, 3.14,
+		c.r.bytes(31), c.r.bytes(48), c.r.bytes(64), c.r.bytes(65), c.r.bytes(96), c.r.bytes(128), c.r.bytes(132), math.NaN(), math.Inf(1), math.Inf(-1), float32(math.NaN()), -0.0, 1e300,
 		[]any{}, []any{1, "x"}, []any{nil}, map[any]any{}, map[any]any{1: nil}, key.Ops{}, key.Ops(nil), key.Ops{1, 2, 3, 4, 5, 6, 7, 8, 9, 10, 11}, []int{1, 2}, []int64{1}, key.ByteStr(nil), key.Alg(-7),
 		cbor.Tag{Number: 2, Content: []byte{1}}, int8(4), uint8(1), float32(1), struct{}{}, &struct{}{}, key.Key{}, (*big.Int)(nil), big.NewInt(5)}
 }
@@ -452,7 +457,10 @@ func streamNoPanic(c *ctx) {
 		"a5010220f62140224023f6", "a401022001215820" + strings.Repeat("00", 32) + "22f5", "a301012006214100", "a3010120062158" + "21" + strings.Repeat("ff", 33),
 		"8402f6f6f6", "8422f6f6f6", "83f64040", "82f6f6", "8218804100", "8318804100f6", "81a0", "9a00020001", "ba00020001", "5b8000000000000000", "9bffffffffffffffff", "c2", "c240", "c1f6", "d9d9f7f6", "d9d9f7d9d9f780",
 		strings.Repeat("81", 40) + "00", strings.Repeat("a100", 40) + "00", strings.Repeat("d8ff", 40) + "00", "7f6161ff", "9f01ff", "bf0102ff", "5f4100ff", "fb7ff8000000000000", "f97e00", "1bffffffffffffffff", "3bffffffffffffffff",
-		"a11bffffffffffffffff00", "a13bffffffffffffffff00", "a1fb000000000000000000", "8440a0f6" + "5a00ffffff", "8440a0f6" + "5affffffff00"} {
+		"a11bffffffffffffffff00", "a13bffffffffffffffff00", "a1fb000000000000000000",
+		// claim sets and header maps with floats that are not numbers, infinite, negative zero, huge, under the time claims and alg
+		"a104f97e00", "a105f97e00", "a106f97e00", "a104fb7ff8000000000000", "a204f97c00051a00010000", "a104f9fc00", "a105fa7fc00000", "a106fb7ff0000000000000", "a104f98000", "a104fb7e37e43c8800759c",
+		"a304f97e0005f97e0006f97e00", "a2041a7fffffff05f97e00", "a2041a7fffffff06fb7ff8000000000000", "a101f97e00", "a104c249010000000000000000", "a105c349010000000000000000", "8440a0f6" + "5a00ffffff", "8440a0f6" + "5affffffff00"} {
 		inputs = append(inputs, key.HexBytesify(h))
 	}
 	// nested map values whose keys are anything CBOR allows (null, booleans, byte strings, floats, bignums, tagged and
